@@ -15,7 +15,8 @@ def _main():
 C03_RULE = ("grammars: profile 'types' (arity/type-set combinations across nested constructs, Rust keywords as rule and field names, "
             "boxes on subsets of variants, override-only rules, @string (+-@position, with single- and multi-type fields inside), @char, "
             "@extern, field-less rules, @position, @check, @memoize); configurations cycle over derive sets [Debug,Clone], "
-            "[Debug,Clone,PartialEq,Eq], [Clone], [] and with/without user context type. Oracle: rustc on the generated module together "
+            "[Debug,Clone,PartialEq,Eq], [Clone], [] and with/without user context type; every second batch crate is a 2024-edition crate, the others "
+            "2021 (the repository's edition). Oracle: rustc on the generated module together "
             "with exact-type assertions emitted from the independent static oracle (exhaustive destructuring of every struct, exhaustive "
             "match over every enum, alias equality in both directions, PegPosition impl) under #![forbid(unsafe_code)], plus a token scan "
             "for unsafe/static/thread_local. evaluations = grammar x configuration compiled; non-trivial = grammar has a field with "
